@@ -35,6 +35,8 @@ def _sender_for_layout(rng, version, level):
         mode = 'numeric'
         cap = gen.capacity_chars(version, level, mode)
     n = gen.length_near(rng, cap)
+    if rng.random() < 0.12:
+        n = cap + rng.choice((1, 1, 2))    # just beyond the ISO capacity: must be refused -- if it is accepted, the symbol must still be valid
     content = gen.text(rng, mode, n)
     kw = {'version': version, 'error': level, 'boost_error': False, 'mode': mode}
     big = (not micro) and version > 12
@@ -60,7 +62,7 @@ def _sender_sampled(rng, tier):
         mode = rng.choice(gen.QR_MODES)
         n = int(rng.paretovariate(0.7)) if rng.random() < 0.7 else rng.randint(1, 400)
         n = max(1, min(n, 1200))
-        content = gen.text(rng, mode, n)
+        content = gen.text(rng, mode, n) if rng.random() < 0.9 else gen.near_text(rng, n)
         if mode == 'hanzi':
             kw['mode'] = 'hanzi'
         elif rng.random() < 0.15:
